@@ -25,7 +25,7 @@ first miss, or because the change description showed (and a run on a patched scr
 the existing generator could not reach the trigger; each meta.json `history` says which. Each meta.json
 also records the demonstration (fails with the change, passes without), the repository's own 374 tests
 passing with the change, the verdict of every check that was run against it, and a final `recheck` of
-the target property's check against the patch on the last tree (`tools/seeded_recheck.py`). Waves 3-6
+the target property's check against the patch on the last tree (`tools/seeded_recheck.py`). Waves 3-7
 asked further agents for a change on a *less obvious* clause; four of them (C01, C06, C12, C14)
 independently produced the very same edit as the earlier agent for that property and were not stored twice.
 '''
